@@ -3,6 +3,10 @@ EXTENDS Solve
 O(i, d, n) == [id |-> i, deg |-> d, nc |-> n]
 Cn(i, d, e) == [id |-> i, deg |-> d, eq |-> e, nc |-> FALSE]
 MC_ObjRecs == {O(1, 1, FALSE), O(2, 1, FALSE), O(3, 2, FALSE), O(4, 9, FALSE), O(5, 1, TRUE)}
+\* the history graph (MC_Hist) additionally offers: 6 = a quadratic objective over x, y and an auxiliary variable that sorts
+\* BEFORE them (objective 5 has one that sorts after); 8 = an objective linear in the variables whose parameter occurs only
+\* inside a function (exp(-p) * x + 2 y)
+MC_ObjRecsH == MC_ObjRecs \cup {O(6, 2, FALSE), O(8, 9, FALSE)}
 MC_ConRecs == {Cn(11, 1, FALSE), Cn(12, 9, TRUE), Cn(13, 1, FALSE)}      \* 13 introduces a variable the objective does not mention
 MC_Excs == Excs
 MC_NoExcs == {}
